@@ -139,6 +139,7 @@ class ServerRun:
                         except Exception:
                             rec["chal"] = None
                     nout = len(conn.outgoing_messages)
+                    connlib.Real.capture.update(sh=None, key=None, tok=None)
                     try:
                         r = _o(conn, data)
                     except Exception as e:
@@ -147,8 +148,9 @@ class ServerRun:
                             cur.hs_calls.append(rec)
                         raise
                     if _n == "_recvClientHello":
-                        if len(conn.outgoing_messages) > nout:
-                            rec["ok"] = (conn.session_key_bytes.hex(), conn.outgoing_messages[-1].payload.hex(), conn.token)
+                        cap = connlib.Real.capture
+                        if cap["sh"] is not None:       # computed; sent unless the hello was shorter than the reply (the model decides)
+                            rec["ok"] = (cap["key"].hex(), cap["sh"].hex(), cap["tok"])
                         else:
                             rec["ok"] = None
                     if cur is not None:
@@ -544,3 +546,60 @@ def post(case, out_lines):
     if len(ops) != len(out_lines):
         res.append("#outputs=%d ops=%d" % (len(out_lines), len(ops)))
     return res
+
+def honest_monitor(case, recs, log, ctx):
+    """service to established clients: a genuine datagram of a client that was connected before this iteration, arriving for the first
+    time and in order, is processed - every application message in it that the server has not delivered before reaches handle_message
+    in this very iteration, whatever else is in the batch and whatever the handler does with the other events"""
+    emissions = {}          # client name -> emission index -> [(msg seq, type, digest)]
+    for r in log:
+        if r.get("op") == "build" and r.get("pkt"):
+            emissions.setdefault(r["e"], {})[r["pkt"]["k"]] = r["pkt"]["msgs"]
+    conn_at = {}            # addr -> (oid, iteration of the connect event)
+    name_of = {}            # oid -> client name
+    newest = {}             # client name -> newest emission index delivered to the server
+    seen_seq = {}           # oid -> message seqs handed to the handler
+    addr_of = {}
+    for i, rec in enumerate(recs):
+        got = {}
+        for e in rec["events"]:
+            p = e.split(":")
+            if p[0] == "msg":
+                got.setdefault(int(p[1]), set()).add(int(p[2]))
+        for (addr, d, spec), ok in zip(rec["items"], rec["accepted"]):
+            if not ok or not spec.startswith("@"):
+                continue
+            name, k = spec[1:].split(":")
+            k = int(k)
+            if addr not in conn_at or conn_at[addr][1] >= i:
+                continue
+            oid = conn_at[addr][0]
+            if name_of.get(oid) != name or k <= newest.get(name, -1):
+                continue
+            newest[name] = k
+            want = [m[0] for m in emissions.get(name, {}).get(k, []) if m[1] == 6 and m[0] not in seen_seq.get(oid, set())]
+            missing = [sq for sq in want if sq not in got.get(oid, set())]
+            if missing:
+                ctx.failure("honest-datagram-not-processed",
+                            "iteration %d: datagram %s of a client connected since iteration %d arrived for the first time and in order, but "
+                            "its application message(s) %s never reached handle_message (handler events of the iteration: %s)" %
+                            (i, spec, conn_at[addr][1], missing[:5], [e for e in rec["events"] if not e.startswith("send")][:8]),
+                            {"case": case, "at": len(case) - 2, "iteration": i})
+                return
+            ctx.count("honest:datagram-processed")
+        for e in rec["events"]:
+            p = e.split(":")
+            if p[0] == "connect":
+                oid, addr = int(p[1]), (p[2], int(p[3]))
+                conn_at[addr] = (oid, i)
+                addr_of[oid] = addr
+                for (a2, _d, sp2), ok2 in zip(rec["items"], rec["accepted"]):
+                    if a2 == addr and sp2.startswith("@"):
+                        name_of[oid] = sp2[1:].split(":")[0]
+                        newest[name_of[oid]] = max(newest.get(name_of[oid], -1), int(sp2.split(":")[1]))
+            elif p[0] == "msg":
+                seen_seq.setdefault(int(p[1]), set()).add(int(p[2]))
+            elif p[0] == "disc":
+                a = addr_of.get(int(p[1]))
+                if a is not None and conn_at.get(a, (None,))[0] == int(p[1]):
+                    del conn_at[a]
